@@ -3,6 +3,7 @@ import json, os, re, subprocess, sys, time, glob
 
 import vbuild, gen
 import vcheck as vc
+import special
 
 VERIF = vbuild.VERIF
 
@@ -38,6 +39,8 @@ PROPS = {
     "C06": dict(targets=["Properties_C06.vo"], families=[("chunks", 1.0), ("items", 0.3)], codes=[], extra="c06", expand=True),
     "C07": dict(targets=["Properties_C07.vo"], families=[("garbage", 1.0), ("chunks", 0.5), ("markup_wild", 1.0)], codes=[], extra="c07", expand=True),
     "C20": dict(targets=["Properties_C20.vo"], families=[("chunks", 1.0), ("items", 0.5), ("garbage", 0.5)], codes=[], extra="c20", expand=True),
+    "C12": dict(targets=["Properties_C12.vo"], families=[], codes=[], special="c12"),
+    "C14": dict(targets=["Properties_C14.vo"], families=[], codes=[], special="c14"),
     "C18": dict(targets=["Properties_C18.vo"], families=[("term", 0.5)], codes=[101, 102]),
     "C19": dict(targets=["Properties_C19.vo"], families=[("term", 0.5)], codes=[102]),
 }
@@ -347,6 +350,12 @@ def run_check(pid, tier, seed, replay=None):
         return 2
 
     # 1. proofs -----------------------------------------------------------------
+    if P.get("special") == "c12":
+        serr = special.build_statics()
+        if serr:
+            path = vc.write_replay(pid, seed, "statics", [], {"property": pid, "broken": "static-storage scan of the sources / objects", "detail": serr})
+            vc.log("VIOLATION property=%s replay=%s no-failing-input-found" % (pid, path))
+            return 1
     cq = vc.coq_phase(ctx, P["targets"])
     if cq.get("gen_error"):
         path = vc.write_replay(pid, seed, "gen", [], {"property": pid, "broken": "gen/dump.cpp against the current headers", "detail": cq["gen_error"]})
@@ -438,6 +447,19 @@ def run_check(pid, tier, seed, replay=None):
                 fails.append((fam, sd, {"case": cid, "code": 0, "cfg": "-", "op": -1, "why": why}, cases.get(cid)))
         return res
 
+    sp_stats = None
+    if P.get("special"):
+        runner = special.run_c12 if P["special"] == "c12" else special.run_c14
+        sp_fails, sp_stats = runner(pid, tier, seed, ctx, P)
+        stats["evaluations"] += sum(v for v in sp_stats.values() if isinstance(v, int) and not isinstance(v, bool))
+        for (why, lines) in sp_fails:
+            if why.startswith("TIE:"):
+                mismatches.append(("special", seed, "-", 0, why, "", lines))
+            else:
+                fails.append(("special", seed, {"case": "-", "code": 0, "cfg": "-", "op": -1, "why": why, "noshrink": True}, lines))
+        stats["distinct"].update(range(min(stats["evaluations"], 100000)))
+        stats["samples"].append({"family": "special", "stats": sp_stats})
+
     # corpus first
     for fam, _w in P["families"]:
         for f in sorted(glob.glob(os.path.join(VERIF, "corpus", fam, "*.script"))):
@@ -471,9 +493,9 @@ def run_check(pid, tier, seed, replay=None):
                 return any(not w.startswith("KNOWN:") for (_c, w) in extra(r["impl_lines"]))
             return any(x["code"] == f["code"] and x["cfg"] == f["cfg"]
                        and not match_known(pid, x, ls, r["oracle_fails"]) for x in r["oracle_fails"])
-        small = vc.shrink(ctx, case_lines, still) if case_lines else []
+        small = (vc.shrink(ctx, case_lines, still) if case_lines and not f.get("noshrink") else (case_lines or []))
         why = f.get("why") or CLAUSE.get(f["code"], "")
-        r = vc.run_script(ctx, "final", small, want_oracle=bool(codes), want_model=True, expand=P.get("expand", False))
+        r = vc.run_script(ctx, "final", small, want_oracle=bool(codes), want_model=True, expand=P.get("expand", False)) if not f.get("noshrink") else {"impl_lines": []}
         path = vc.write_replay(pid, sd, "%s-%s" % (fam, f["case"]), small, {
             "property": pid, "clause": why, "oracle_code": f["code"], "reference_terminal": f["cfg"],
             "family": fam, "seed": sd, "case": f["case"], "failing_op_index": f["op"],
@@ -541,7 +563,7 @@ def run_check(pid, tier, seed, replay=None):
         "input_distribution": {"families": stats["families"], "operations": stats["op_hist"]},
         "correspondence_mismatches": len(mismatches), "oracle_failures": len(real_fails),
         "known_findings_seen": sorted(known_hits.keys()),
-        "proof_targets_failed": proof_failed, "notes": notes,
+        "proof_targets_failed": proof_failed, "notes": notes, "special": sp_stats,
         "exhaustive": False,
     }
     assumptions = ["glyphs displayable, one cell per glyph, declared size = actual size (DESIGN.md section 8)",
